@@ -26,6 +26,7 @@ from uplc_ref import term as T
 
 CONFIGS_ALL = [(l, pv) for l in ("v1", "v2", "v3") for pv in (8, 9, 10, 11)]
 BIG_BUDGET = D.BIG_BUDGET
+MACHINE_BUDGET = [10**12, 10**10]  # [cpu, mem]
 STEP_CPU, STEP_MEM, START_CPU, START_MEM = D.STEP_CPU, D.STEP_MEM, D.START_CPU, D.START_MEM
 
 
@@ -253,7 +254,9 @@ def _work(task):
     jobs = []
     for i, t in enumerate(terms):
         lang, pv = configs[(i + (seed % 7)) % len(configs)]
-        jobs.append({"id": i, "op": "eval", "term": t, "version": [1, 1, 0], "lang": lang, "pv": pv, "budget": BIG_BUDGET, "events": True, "debug": True})
+        # machine-family terms may diverge (the reference runs out of fuel after 300 000 steps: inconclusive);
+        # the real machine gets a finite budget worth ~6e7 steps so that it stops too (OutOfEx: no verdict)
+        jobs.append({"id": i, "op": "eval", "term": t, "version": [1, 1, 0], "lang": lang, "pv": pv, "budget": BIG_BUDGET if kind == "builtin" else MACHINE_BUDGET, "events": True, "debug": True})
     rust = run_driver(list(reversed(jobs)) if extra == "reverse" else jobs)
     outcomes = [common.h({k: v for k, v in (rust.get(j["id"]) or {}).items() if k in ("ok", "err", "cost", "logs", "panic")}) for j in jobs]
     if extra == "reverse":
